@@ -424,7 +424,9 @@ def relativeTo (p : TP) (args : List TArg) : Except Exc TP := do
   let r ← p.path.relativeTo a
   wrap p.host r
 
-/-- `is_relative_to`: host check first, then `relative_to` with `ValueError` meaning `False` -/
+/-- `is_relative_to` (as repaired by r-path `fix: Path.is_relative_to raises WrongHostError …`;
+    before, the `WrongHostError` — a `ValueError` — was swallowed and the answer was `False`):
+    host check first, then `self._path.relative_to` with `ValueError` meaning `False` -/
 def isRelativeTo (p : TP) (args : List TArg) : Except Exc Bool := do
   let a ← prepareArgs p.host args
   match p.path.relativeTo a with
@@ -439,12 +441,15 @@ def joinpath (p : TP) (args : List TArg) : Except Exc TP := do
 /-- `p / key` -/
 def truediv (p : TP) (key : TArg) : Except Exc TP := p.joinpath [key]
 
-/-- `key / p`: `Path(self._host, key, self._path)` -/
+/-- `key / p` (as repaired by r-path `fix: Path.__rtruediv__ …`; before: always `TypeError`):
+    `Path(self._host, key, self._path)` -/
 def rtruediv (p : TP) (key : TArg) : Except Exc TP := new p.host [key, .q p.path]
 
 def parent (p : TP) : Except Exc TP := wrap p.host p.path.parent
 
-/-- `_PathParents.__len__`: `len(self._path.parents)` -/
+/-- `_PathParents` (as repaired by r-path `fix: Path.parents delegates to PurePosixPath.parents`;
+    before, length and items were computed from `parts`, anchor included) wraps
+    `self._path.parents`.  `__len__`: `len(self._parents)` -/
 def parentsLen (p : TP) : Nat := p.path.parentsLen
 
 /-- `_PathParents.__getitem__(int)` -/
